@@ -27,6 +27,16 @@ INFO = {
  "C10_2": ("the 'too many H' rejection is cached per symbol text and survives a table change", "a failed decode of an over-hydrogenated symbol, then a table that makes it legal, then an encode of that atom", True, "missed (no table change in C10); caught after the 'decode under A, set B, round trip under B' part was added"),
  "C14_2": ("split_selfies refreshes its dot index before advancing: only the first dot of a string is recognised", "a well-formed string with at least two dots", False, ""),
  "C15_2": ("one-hot rows cached by index only, not by vocabulary size", "two vocabularies of different sizes used in one process", True, "missed (one vocabulary per path, and the per-path reset restores module state); caught after the 'two vocabularies in sequence' part was added"),
+ "C06_3": ("`table.get(key) or table['?']` in get_bonding_capacity (third independent occurrence of this slip)", "a capacity-0 entry, strict=True", False, ""),
+ "C07_3": ("charge validation `int(charge) > 0` accepts leading zeros", "a key such as 'C+01'", False, ""),
+ "C08_3": ("'too many H' check of process_atom_symbol runs only on a cache miss", "decode [NH2]-type symbol under a loose table, tighten the table, decode again: AttributeError / ValueError escape", True, "missed (no table change in C08); caught after the 'decode under A, set B, decode again' part with H-bearing symbols was added"),
+ "C09_3": ("`adj != node` instead of `adj != root` in _find_augmenting_path: empty path, IndexError escapes", "an aromatic system with an odd ring and no kekulization (c1cc1, c1cccc1)", True, "missed (needs 5-7 tokens); caught after small aromatic ring templates were added to C09"),
+ "C11_3": ("get_preset_constraints returns the preset dict itself", "table chosen by preset name (or never set), a decode, the caller mutates the returned preset dict, another decode", True, "missed (no preset_mutate operation in C11's histories); caught after it was added"),
+ "C12_3": ("custom table merged over the active table instead of replacing it", "a dict whose key set is not a superset of the active table's", False, ""),
+ "C13_3": ("decoder tokenises the whole string once and cuts fragments on '.' tokens; a [nop] directly before a '.' glues the dot to the next symbol", "[nop] immediately followed by '.'", True, "missed: the rewritten decoder no longer calls selfies.split('.') and rejected the M-TOK input object on every path, so both sides of the differential failed alike (vacuous); caught after run_decoder re-examines any non-DecoderError exception on the plain string (M-TOK falls back to pinned strings)"),
+ "C16_3": ("INDEX_CODE became a defaultdict and is indexed with []: reading an unknown symbol inserts it and the base len(INDEX_CODE) grows", "a multi-symbol index with a non-index symbol in a lower slot, or any earlier decode with a non-index symbol in an index slot", True, "first run ended with a harness error: the instrumented copy of INDEX_CODE lost the default factory and translator validation flagged the disagreement; caught after wrapped containers keep a defaultdict's factory"),
+ "C17_3": ("writer tracks token end positions with a running counter that forgets the '%' of two-digit ring labels", "ten or more ring closures in the output", True, "missed (needs >= 10 rings); caught after the 'many rings' part (8-10 three-membered rings + free symbols) was added"),
+ "C18_3": ("per-fragment fast path overwrites the compatible flag: the first fragment without legacy symbols switches modernisation off for the rest", "several fragments, a modern-only fragment before a legacy one", True, "first run ended with a harness error: `\"xpl\" in s` on the M-TOK fragment (a list) did not behave like a string; caught after fragments became string-like (TokFrag) and a multi-fragment alphabet was added to C18"),
 }
 only = sys.argv[1:]
 for label in sorted(os.listdir(os.path.join(HERE, "seeded"))):
